@@ -88,9 +88,9 @@ func (rw *RollingWindow) updateOffset() {
 }
 
 func (rw *RollingWindow) span() int {
-	offset := int(timex.Since(rw.lastTime) / rw.interval)
-	if 0 <= offset && offset < rw.size {
-		return offset
+	offset := timex.Since(rw.lastTime) / rw.interval
+	if 0 <= offset && offset < time.Duration(rw.size) {
+		return int(offset)
 	}
 
 	return rw.size
